@@ -1,0 +1,60 @@
+//go:build verif
+
+// Contracts for the verifier in /verif (comment-only file; contributes no declarations).
+package streams
+
+// Closed world: flows, directions, entry points, nodes and edges are the ones package streams/flow builds.
+//@ devirtall FlowI => *Flow
+//@ devirtall FlowDirectionI => *FlowDirection
+//@ devirtall EntryPointI => *EntryPoint
+//@ devirtall FlowGraphNodeI => *FlowGraphNode
+//@ devirtall ConnectionEdgeI => *ConnectionEdge
+//@ pure APIStreamI.GetType
+//@ pure APIStreamI.GetURL
+//@ pure APIStreamI.GetName
+
+// reflect-based nil test (trusted): true for a nil interface and for an interface holding a nil pointer
+//@ extern utils.IsInterfaceNil
+//@   modifies nothing
+//@   ensures result <==> ifacenil(i)
+//@ iface APIStreamI.SetContext
+//@   modifies nothing
+
+// Ghost trace of flow executions: fl[i] is the i-th flow handed to executeFlow (in order), for this transaction.
+//@ ghost var fl gmap[int]*streamflow.Flow
+//@ ghost var flen int
+//@ ghost func fw(f internaltypes.FlowI) *streamflow.Flow = f.(*streamflow.Flow)
+//@ ghost func dirOf(f internaltypes.FlowI, a publictypes.APIStreamI) *streamflow.FlowDirection = ite(a.GetType() == publictypes.StreamTypeRequest, fw(f).request, fw(f).response)
+
+//@ pure Flow.GetExecutionContext
+// metrics counters (trusted): they start at zero, only grow and do not wrap, so a counter is positive after an increment
+//@ extern atomic.AddInt64
+//@   modifies allof(flowMetricsData.totalFlowExecutionTimeNs), allof(flowMetricsData.totalFlowExecutions), allof(flowMetricsData.requestsThroughFlowsCounter)
+//@   ensures delta > 0 ==> result > 0
+
+// Well-formed flows, as package streams/flow builds them: both directions exist, an entry point has a node, nodes and
+// edges are allocated objects and no edge slot is nil.
+//@ ghost func nd(n internaltypes.FlowGraphNodeI) *streamflow.FlowGraphNode = n.(*streamflow.FlowGraphNode)
+//@ ghost func dirOK(d *streamflow.FlowDirection) bool = d != nil && (d.root != nil ==> d.root.node != nil && allocated(d.root.node))
+//@ ghost func flowOK(f internaltypes.FlowI) bool = ifacenil(f) || (typeis(f, *streamflow.Flow) && fw(f).flowRep != nil && fw(f).contextManager != nil && dirOK(fw(f).request) && dirOK(fw(f).response))
+//@ ghost func nodeArgOK(n internaltypes.FlowGraphNodeI) bool = ifacenil(n) || (typeis(n, *streamflow.FlowGraphNode) && allocated(nd(n)))
+//@ ghost func graphOK() bool = forall(n, *streamflow.FlowGraphNode, allocated(n) ==> forall(k, 0, len(n.edges), n.edges[k] != nil && (n.edges[k].node != nil ==> allocated(n.edges[k].node))))
+// the node at which executeFlow starts the walk (nil: nothing is executed)
+//@ ghost func startOf(f internaltypes.FlowI, a publictypes.APIStreamI, from internaltypes.FlowGraphNodeI) *streamflow.FlowGraphNode = ite(ifacenil(f) || len(dirOf(f, a).nodes) == 0 || dirOf(f, a).root == nil, nil, ite(ifacenil(from) || len(nd(from).edges) == 0, dirOf(f, a).root.node, nd(from).edges[0].node))
+
+// One flow: the walk starts at the entry point of the direction that corresponds to the transaction's side — or, when
+// resuming after a processor answered the request itself, at the target of that processor's (first) connection — and
+// nothing is executed when the flow has no such direction or entry point.
+//@ func (*Stream).executeFlow
+//@   prop C04
+//@   results sc, err
+//@   requires s != nil && s.apiStreams != nil && s.metricsData != nil && actions != nil && actions.Request != nil && actions.Response != nil && xlen >= 0
+//@   requires flowOK(flow) && nodeArgOK(startFromNode) && graphOK()
+//@   modifies now, xn, xo, xp, xlen, xpar, drops, fl, flen, actions.Request.Actions, actions.Response.Actions, allof(flowMetricsData.totalFlowExecutionTimeNs), allof(flowMetricsData.totalFlowExecutions), allof(flowMetricsData.requestsThroughFlowsCounter), allof(flowMetricsData.avgFlowExecutionTime)
+//@   allocates ProcessorIO
+//@   on entry do fl[flen] = fw(flow); flen = flen + 1
+//@   ensures[flow-recorded] flen == old(flen) + 1 && fl[old(flen)] == fw(flow)
+//@   ensures[nothing-without-entry] startOf(flow, apiStream, startFromNode) == nil ==> xlen == old(xlen) && err == nil && sc == nil && actions.Request.Actions == old(actions.Request.Actions) && actions.Response.Actions == old(actions.Response.Actions)
+//@   ensures[starts-at-entry] startOf(flow, apiStream, startFromNode) != nil ==> xlen > old(xlen) && xn[old(xlen)] == startOf(flow, apiStream, startFromNode)
+//@   ensures[prefix-kept] forall(i, 0, old(xlen), xn[i] == old(xn)[i] && xo[i] == old(xo)[i] && xp[i] == old(xp)[i])
+//@   ensures[on-path] forall(i, old(xlen) + 1, xlen, old(xlen) <= xp[i] && xp[i] < i && follows(xn[xp[i]], xo[xp[i]], xn[i]))
